@@ -7,6 +7,7 @@ import (
 	"fmt"
 	"os"
 	"path/filepath"
+	"sort"
 	"strings"
 	"sync"
 
@@ -533,7 +534,9 @@ func GenC02(r *Rng, n int, tier string) []PipeIn {
 		} else if r.Chance(1, 5) {
 			cfg.Matcher = Pick(r, []string{"dissect:%{a} %{b}", "dissect:k=%{v};", "dissect:%{a}:%{b}:%{c}", "dissecti:k=%{v};", "dissecti:ID=%{id} user=%{u};", "dissecti:ID=%{id} user=%{u};",
 				// literals that overlap themselves: a partial occurrence right before the real one (===> / :::1 / aab) must not hide it
-				"dissecti:%{task}==>%{state}", "dissecti:%{h}::1 %{rest}", "dissect:%{task}==>%{state}", "dissecti:%{x}aab%{y}"})
+				"dissecti:%{task}==>%{state}", "dissecti:%{h}::1 %{rest}", "dissect:%{task}==>%{state}", "dissecti:%{x}aab%{y}",
+				// key names with upper-case letters: --ignore-case folds the literals, never the names
+				"dissecti:ID=%{Id} user=%{userName};", "dissecti:ID=%{Id} user=%{userName};", "dissect:%{Method} %{Path}"})
 		}
 		cfg.HoldAll = true
 		in := PipeIn{Cfg: cfg}
@@ -545,6 +548,20 @@ func GenC02(r *Rng, n int, tier string) []PipeIn {
 			in.Extract = append(in.Extract, KPiece{Kind: "lit", Text: "|"}, KPiece{Kind: "name", Text: "key"}, KPiece{Kind: "name", Text: "last"})
 		case 1:
 			in.Extract = append(in.Extract, KPiece{Kind: "lit", Text: "|"}, KPiece{Kind: "name", Text: "nosuch"})
+		}
+		// the matcher's own group names, exactly as written in the pattern, and a wrong-case spelling (never a key)
+		if _, names, err := Oracle(cfg.Matcher); err == nil && len(names) > 0 && r.Chance(2, 3) {
+			var ns []string
+			for n := range names {
+				ns = append(ns, n)
+			}
+			sort.Strings(ns)
+			for _, n := range ns {
+				in.Extract = append(in.Extract, KPiece{Kind: "lit", Text: "|"}, KPiece{Kind: "name", Text: n})
+			}
+			if w := strings.ToLower(ns[0]); w != ns[0] {
+				in.Extract = append(in.Extract, KPiece{Kind: "lit", Text: "|"}, KPiece{Kind: "name", Text: w})
+			}
 		}
 		mk := func() []byte {
 			n := r.Intn(14)
